@@ -255,7 +255,7 @@ class _Parser(config_parse_common._Parser):
         # convert fields to members
         prop_name = 'fields'
 
-        if prop_name in v2_ft_node:
+        if v2_ft_node.get(prop_name) is not None:
             members_node = []
 
             for member_name, v2_member_ft_node in v2_ft_node[prop_name].items():
@@ -390,7 +390,7 @@ class _Parser(config_parse_common._Parser):
         v2_er_header_ft_node = v2_dst_node.get(eht_prop_name)
 
         if v2_er_header_ft_node is not None:
-            v2_er_header_ft_fields_node = v2_er_header_ft_node['fields']
+            v2_er_header_ft_fields_node = v2_er_header_ft_node.get('fields')
 
         def_clk_type_name = None
 
@@ -477,7 +477,7 @@ class _Parser(config_parse_common._Parser):
 
             v2_pkt_header_ft_fields_node = collections.OrderedDict()
 
-            if v2_pkt_header_ft_node is not None:
+            if v2_pkt_header_ft_node is not None and v2_pkt_header_ft_node.get('fields') is not None:
                 v2_pkt_header_ft_fields_node = v2_pkt_header_ft_node['fields']
 
             v3_magic_ft_node = self._conv_ft_node_if_exists(v2_pkt_header_ft_fields_node, 'magic')
